@@ -160,6 +160,8 @@ def mutants(name, ini):
                            ('spline(as.buck 1000.0 0.3 0 >1.0 nosuch_spline >2.0 as.buck 0 1 3)', 'spline-unknown-type'),
                            ('spline(as.buck 1000.0 0.3 0 >1.0 sum(as.zero) >2.0 as.buck 0 1 3)', 'spline-modifier-as-middle'),
                            ('spline(as.buck 1000.0 0.3 0 >2.0 exp_spline >1.0 as.buck 0 1 3)', 'spline-reversed-knots'),
+                           ('spline(as.buck 1000.0 0.3 0 >1.0 exp_spline(as.zero) >2.0 as.buck 0 1 3)', 'spline-type-written-as-modifier'),
+                           ('spline(as.buck 1000.0 0.3 0 >1.0 buck4_spline(as.constant 1.5) >2.0 as.buck 0 1 3)', 'spline-type-written-as-modifier'),
                            ('spline(as.buck 1000.0 0.3 0 >1.0 exp_spline >1.0 as.buck 0 1 3)', 'spline-equal-knots'),
                            ('spline(as.buck 1000.0 0.3 0 >1.0 exp_spline >2.0 as.buck 0 1 3, as.zero)', 'spline-two-arguments'),
                            # argument lists that break directly after a comma
@@ -222,7 +224,12 @@ def mutants(name, ini):
     # a malformed formula that no interaction uses is still a malformed file
     for nk, nv, op in (('unused(r, A', 'A*r', 'unused-formula-signature-unclosed'), ('unused(r,,A)', 'A*r', 'unused-formula-empty-parameter'),
                        ('unused(r, A, a)', 'A*r + a', 'unused-formula-parameters-differ-in-case'), ('unused(r, A)', 'A*r + ${nosuch}', 'unused-formula-placeholder-unresolved'),
-                       ('unused r, A', 'A*r', 'unused-formula-signature-no-parentheses')):
+                       ('unused r, A', 'A*r', 'unused-formula-signature-no-parentheses'),
+                       # parameter names the formula language cannot bind: its constants, functions, keywords, non-identifiers
+                       ('ljx(r, epsilon, sigma)', '4*epsilon*((sigma/r)^12 - (sigma/r)^6)', 'formula-parameter-reserved:epsilon'), ('unused(r, pi)', 'pi*r', 'formula-parameter-reserved:pi'),
+                       ('unused(r, inf)', 'r', 'formula-parameter-reserved:inf'), ('unused(r, min)', 'r', 'formula-parameter-reserved:min'), ('unused(r, exp)', 'r', 'formula-parameter-reserved:exp'),
+                       ('unused(r, if)', 'r', 'formula-parameter-reserved:if'), ('unused(r, 1x)', 'r', 'formula-parameter-not-identifier'), ('unused(r, _x)', 'r', 'formula-parameter-not-identifier'),
+                       ('unused(r, A)(B)', 'r', 'formula-signature-trailing-text')):
         d = ini.copy()
         if d.section('Potential-Form') is None:
             d.sections.append(['Potential-Form', []])
